@@ -452,7 +452,7 @@ def case_strategy(draw, tier):
         return st.tuples(st.just("reload"))
 
     op = st.sampled_from(kinds).flatmap(op_of)
-    length = draw(st.integers(0, 25))
+    length = draw(st.one_of(st.integers(0, 25), st.integers(8, 25)))
     lam = draw(st.one_of(st.just(1.0), st.sampled_from(LAMBDAS), st.sampled_from(LAMBDAS),
                          st.integers(10, 1000).map(lambda i: i / 100.0)))
     return {"algo": draw(st.sampled_from(ALGOS)), "dim": draw(st.integers(1, 6)), "arms": arms, "lamb": lam,
